@@ -49,4 +49,10 @@ CHECKS["C06"] = {
   "note": "exact reals; calibration clock replaced by three deterministic schedules, its possible results covered by the symbolic fraction; feasibility of paths over-approximated by the linear abstraction only (obligations are still decided exactly)",
   "technique": TECH,
 }
+CHECKS["C08"] = {
+  "text": "For FPS, PCov-FPS, VoronoiFPS and the CUR family (recompute_every 0 and 1) a cold fit with n selections and EVERY increasing schedule of warm-started fits reaching n (exhaustive for n<=3, 4 in thorough), every shorter cold fit (prefix property) and FPS initialised with the selected prefix are executed in the same symbolic path on the same symbolic data; selected_idx_, n_selected_, X_selected_, y_selected_, hausdorff_/hausdorff_at_select_, pi_, X_current_, y_current_ are compared as exact terms (normal-form zero test) on every path; warm_start on an unfitted selector must raise.",
+  "design_ref": "DESIGN.md 2/C08",
+  "note": "exact reals (first-index argmax is deterministic, so equality must be exact on every path, ties included); CUR family scores are uninterpreted functions with congruence; one repaired defect (recompute_every=0 warm start)",
+  "technique": TECH,
+}
 NOT_APPLICABLE = {}
